@@ -17,7 +17,7 @@ from decimal import Decimal
 from lib import monitors, treeconv
 
 ID = 'C11'
-TECHNIQUE = 'offline history checker: call log grouped by visible arguments vs history-free calls (fresh parser, fresh process) + lexer start-state monitor'
+TECHNIQUE = 'offline history checker: call log grouped by visible arguments vs history-free calls (fresh parser, fresh process) + lexer start-state monitor; coverage-guided texts (atheris) as history of one long-lived parser'
 RULE = ('histories of 5-40 calls on one SqParser (plain and with a dict parse cache) over a corpus of valid, lexically invalid, syntactically invalid (mid-text, premature end, '
         'unbalanced open and close brackets, failing inside brackets on a later line), run-time failing, budget-exhausting and host-callback-raising sources; entry points parse, '
         'eval, list_names fully consumed and list_names abandoned after k names; names mappings: fresh per call (several templates) and mappings that persist across calls and are '
@@ -28,6 +28,7 @@ RULE += ' Sweep: every text of the corpus, twice, on one long-lived parser per w
 RULE += ' Template rotation: texts of the corpus evaluated under all six names templates in a row (random order) on the long-lived plain and caching parsers, each outcome against a history-free parser.'
 RULE += ' Histories also contain eval(text) calls with the names argument omitted, and the second pass of the sweep evaluates every text that way.'
 RULE += ' Names templates carry host containers with a copy protocol of their own (a frozen Box is its own deep copy, a mutable one is copied).'
+RULE += ' Coverage-guided texts: one atheris/libFuzzer process per worker (5 s quick, 100 s thorough) sends every generated text through parse, eval and list_names on ONE long-lived parser - whose history is everything generated before, most of it broken - and on a deep copy of a never-used parser; a difference recorded there is judged again by the worker and, the history being another one here, usually reported as not reproduced.'
 ASSUMPTIONS = ['visible arguments = source text, budget, and the contents of names with callables treated as opaque (equal if both are callables)',
                'a partially consumed list_names generator is abandoned, never resumed after another call',
                'a history-free parser is a freshly constructed SqParser (about one in seven) or a deep copy of a constructed-but-never-used one (17 ms instead of 130 ms); it serves exactly one call']
@@ -286,6 +287,7 @@ def setup(ctx):
     ctx.fresh_built = 0
     ctx.fresh_memo = {}
     ctx.zygote = None
+    ctx.textP = None
     ctx.sweepP = None
     ctx.fresh_spawned = 0
     ctx.fresh_budget = ctx.scale(0, 150)
@@ -335,6 +337,7 @@ def cases(ctx):
         yield ('hist', [('runtime', 'eval', 'round(1.5, 200)', 'fresh0', None, 0), ('ok', 'eval', '1 / 3', 'fresh0', None, 0)], False)
         yield ('hist', [('names-text', 'list_names_partial', 'msg.', 'fresh0', None, 3), ('names-text', 'list_names', 'not ready and ok', 'fresh0', None, 0)], False)
         yield ('hist', [('names-text', 'list_names_partial', 'a b c d', 'fresh0', None, 1), ('names-text', 'list_names', 'a b c d', 'fresh0', None, 0)], True)
+    yield ('cgf', rnd.getrandbits(30), ctx.scale(5, 100))          # coverage-guided texts, one fuzzing process per worker
     for i in range(ctx.scale(14, 400)):
         r = random.Random(rnd.getrandbits(48))
         yield ('hist', gen_history(r), r.random() < 0.4)
@@ -422,7 +425,54 @@ def run_templates(case, ctx):
                 return
 
 
+def case_deadline(case):
+    return case[2] + 400 if case[0] == 'cgf' else CASE_DEADLINE
+
+
+def run_text(case, ctx):
+    """one text through parse, eval and list_names on a long-lived parser (its history: every text this process has judged before, most of them broken) and on a
+    deep copy of a parser that has never served a call: same outcomes"""
+    text = case[1]
+    if ctx.textP is None:
+        ctx.textP = ctx.SqParser()
+    F = copy.deepcopy(ctx.pristine)
+    for entry in ('parse', 'eval', 'list_names'):
+        ctx.cur = {'first': None, 'foreign': 0}
+        out = do_call(ctx.textP, entry, text, fresh_names(0) if entry == 'eval' else None, 200 if entry == 'eval' else None, 0)
+        ctx.cur = {'first': None, 'foreign': 0}
+        ref = do_call(F, entry, text, fresh_names(0) if entry == 'eval' else None, 200 if entry == 'eval' else None, 0)
+        ctx.count('given_text_calls_compared_with_a_history_free_parser')
+        if ('recursion',) in (out, ref):
+            return
+        if out != ref:
+            ctx.violation('a call with the same arguments gives a different outcome on a fresh parser', case,
+                          detail={'call': [entry, text[:300]], 'with_history': repr(out)[:300], 'history_free': repr(ref)[:300]})
+            return
+
+
+def run_cgf(case, ctx):
+    """coverage-guided texts: an atheris/libFuzzer process runs THIS check's run_text over the instrumented sandbox copy - its long-lived parser accumulates the
+    history of every generated text; texts on which a difference was recorded there are judged again here (where the history is another one)"""
+    from lib import cgdriver
+    _, seed, seconds = case
+    seeds = [t for k in ('ok', 'lexical', 'syntax-mid', 'premature-end', 'unbalanced-open', 'unbalanced-close', 'runtime', 'names-text') for t in KINDS[k][:6]]
+    out = cgdriver.run(ctx, 'check:C11:text', seed, seconds, seeds)
+    if out is None:
+        return
+    st, fired, _slow = out
+    for text in fired:
+        ctx.count('texts_on_which_the_oracle_fired_in_the_fuzzing_process')
+        before = len(ctx.violations)
+        run_text(('text', text), ctx)
+        if len(ctx.violations) == before:
+            ctx.violation('coverage-guided fuzzing: a history-dependent outcome was recorded in the fuzzing process (not reproduced here, where the history differs)', ('text', text), detail={'text': text[:300]})
+
+
 def run_case(case, ctx):
+    if case[0] == 'cgf':
+        return run_cgf(case, ctx)
+    if case[0] == 'text':
+        return run_text(case, ctx)
     if case[0] == 'sweep':
         return run_sweep(case, ctx)
     if case[0] == 'templates':
